@@ -4,4 +4,6 @@ set -eu
 cd /verif/mc
 export CARGO_NET_OFFLINE=true
 cargo build --release --offline
+cargo build --release --offline -p c18loom
+cargo check --offline -p c18gate
 echo "setup ok"
